@@ -1,15 +1,12 @@
 //! `lyworker`: batch RPC server that runs Laythe programs in fresh vms.
 //! See /verif/DESIGN.md section 1.1.
 mod alloc;
+mod capio;
 mod memfs;
 mod proto;
 mod verifier;
 
-use laythe_env::{
-  env::IoEnvTest,
-  io::Io,
-  stdio::support::{IoStdioTest, StdioTestContainer},
-};
+use laythe_env::{env::IoEnvTest, io::Io};
 use laythe_vm::{
   verif::{self, GcSchedule, Sym},
   vm::{Vm, VmExit},
@@ -111,15 +108,17 @@ fn decode(buf: &[u8]) -> Request {
   }
 }
 
-fn make_io(req: &Request) -> (Io, Arc<StdioTestContainer>) {
-  let container = Arc::new(StdioTestContainer {
+fn make_io(req: &Request) -> (Io, Arc<capio::Shared>) {
+  let shared = Arc::new(capio::Shared {
     stdout: Default::default(),
     stderr: Default::default(),
-    stdin: Box::new(std::io::Cursor::new(req.stdin.as_bytes().to_vec())),
     lines: req.lines.clone(),
-    line_index: Box::new(0),
+    line_index: Mutex::new(0),
+    stdin: req.stdin.as_bytes().to_vec(),
   });
-  let stdio = Arc::new(IoStdioTest::new(&container));
+  let stdio = Arc::new(capio::IoCapture {
+    shared: Arc::clone(&shared),
+  });
   let mut files = HashMap::new();
   for (path, text) in &req.files {
     files.insert(PathBuf::from(path), text.clone());
@@ -127,7 +126,7 @@ fn make_io(req: &Request) -> (Io, Arc<StdioTestContainer>) {
   let fs = Arc::new(memfs::IoMemFs::new(files));
   let env = Arc::new(IoEnvTest::new(PathBuf::from("/v"), vec![]));
   let io = Io::default().with_stdio(stdio).with_fs(fs).with_env(env);
-  (io, container)
+  (io, shared)
 }
 
 fn heap_json(j: &mut Json, label: &str, s: &verif::HeapStats) {
@@ -372,8 +371,8 @@ fn handle(req: &Request) -> String {
   }
   j.kv_bool("drop_panicked", drop_panic);
 
-  j.kv_str("stdout", &String::from_utf8_lossy(&container.stdout));
-  j.kv_str("stderr", &String::from_utf8_lossy(&container.stderr));
+  j.kv_str("stdout", &String::from_utf8_lossy(&container.stdout.take()));
+  j.kv_str("stderr", &String::from_utf8_lossy(&container.stderr.take()));
   j.kv_num("instr", instr);
 
   j.kv_obj_begin("gc");
